@@ -38,6 +38,8 @@ def run(F, X, rep):
     H.q_request_fields_verbatim(C, rep, "C03-Q")
     # held until the fate is known: each lifecycle answers once - a second answer would hit the entry of a later attempt
     R.p2_exactly_one_answer(C, rep, "C03-R11")
+    # one lifecycle per entry: a second one would read the held sum of a set it does not own (and its closed channels read as "ready")
+    R.a3_one_lifecycle_per_entry(C, rep, "C03-R12")
     # "at least the amount to deliver plus the policy fee": the readiness predicate is the exact one (C12-X1/X2)
     import p_c12
     for pb in p_c12.find_fee_predicate(F)[:1]:
